@@ -157,7 +157,7 @@ Proof. apply wtrunc_guard, wtrunc_exact, trunc_cv_body. Qed.
    Marshal refuses signature algorithm values above 0xFF *)
 Theorem cert_verify_reencode_refuted :
   exists b x, bytes_ok b = true /\ wdec w_cert_verify b = Some x /\ wenc w_cert_verify x = None.
-Proof. exists [8; 4; 0; 1; 170]. eexists. split; [reflexivity|]. split; vm_compute; reflexivity. Qed.
+Proof. exists [8; 4; 0; 1; 170]. eexists. split; [reflexivity|]. split; [vm_compute; reflexivity|]. vm_compute; reflexivity. Qed.
 
 (* ------------------------------------------------------------------ ClientKeyExchange *)
 
@@ -284,7 +284,7 @@ Theorem cke_reencode_refuted :
   exists b x, bytes_ok b = true /\ cke_dec 4 b = Some x /\ cke_enc x = None.
 Proof.
   exists (0 :: repeat 7 256). eexists. split; [vm_compute; reflexivity|].
-  split; vm_compute; reflexivity.
+  split; [vm_compute; reflexivity|]. vm_compute; reflexivity.
 Qed.
 
 (* the input on which the implementation indexes past the end (the model rejects it) *)
@@ -436,7 +436,7 @@ Theorem hs_fragment_reencode_refuted :
   exists b x, bytes_ok b = true /\ hs_unmarshal 0 b = Some x /\ hs_marshal x = None.
 Proof.
   exists [20; 0; 0; 1; 0; 0; 0; 0; 5; 0; 0; 1; 170]. eexists. split; [reflexivity|].
-  split; vm_compute; reflexivity.
+  split; [vm_compute; reflexivity|]. vm_compute; reflexivity.
 Qed.
 
 (* truncating an encoded handshake message is always rejected: the envelope carries the length *)
@@ -464,4 +464,45 @@ Proof.
     unfold mk_hshdr, hh_len; cbn [fst snd].
     destruct (N.eqb_spec (len (firstn (k - length he) body)) (len body)) as [Hbad|]; [|reflexivity].
     unfold len in Hbad. rewrite firstn_length in Hbad. lia.
+Qed.
+
+(* ------------------------------------------------------------------ RecordLayer with the real handshake codec *)
+
+(* RecordLayer.Unmarshal builds &handshake.Handshake{} : no key-exchange context (kx = 0) *)
+Definition hs0_refix : forall b x e, bytes_ok b = true -> wdec (w_hs 0) b = Some x -> wenc (w_hs 0) x = Some e ->
+    exists x', wdec (w_hs 0) e = Some x' /\ wenc (w_hs 0) x' = Some e :=
+  fun b x e Hb Hd He => proj2 (hs_refix 0 b x e Hb Hd He).
+
+Theorem record12_roundtrip x : record_wf (w_hs 0) x = true ->
+  exists e, record_marshal (w_hs 0) x = Some e /\ record_unmarshal (w_hs 0) 0 e = Some x.
+Proof. exact (record_roundtrip (w_hs 0) (hs_roundtrip 0) x). Qed.
+
+Theorem record12_fixpoint_bytes n b x e : bytes_ok b = true ->
+  record_unmarshal (w_hs 0) n b = Some x -> record_marshal (w_hs 0) x = Some e ->
+  exists x', record_unmarshal (w_hs 0) 0 e = Some x' /\ record_marshal (w_hs 0) x' = Some e /\
+             (is_hs (snd x) = false -> snd x' = snd x).
+Proof. exact (record_fixpoint_bytes (w_hs 0) (hs_roundtrip 0) hs0_refix n b x e). Qed.
+
+Theorem record12_reencodes n b x : bytes_ok b = true -> record_unmarshal (w_hs 0) n b = Some x ->
+  is_hs (snd x) = false -> exists e, record_marshal (w_hs 0) x = Some e.
+Proof. exact (record_reencodes (w_hs 0) (hs_roundtrip 0) hs0_refix n b x). Qed.
+
+Theorem record12_declared_length_refuted :
+  exists b h d, record_unmarshal (w_hs 0) 0 b = Some (h, CAppData d) /\ h_len h = 0 /\ d = [1; 2; 3].
+Proof. exact (record_declared_length_refuted (w_hs 0)). Qed.
+
+Theorem record12_value_fixpoint_refuted :
+  exists b x e, bytes_ok b = true /\ record_unmarshal (w_hs 0) 0 b = Some x /\
+                record_marshal (w_hs 0) x = Some e /\ record_unmarshal (w_hs 0) 0 e <> Some x.
+Proof. exact (record_value_fixpoint_refuted (w_hs 0)). Qed.
+
+(* a truncated application-data record is accepted (with shorter data): nothing compares the
+   declared ContentLen with what is there *)
+Theorem record12_trunc_refuted :
+  exists x e k, record_wf (w_hs 0) x = true /\ record_marshal (w_hs 0) x = Some e /\ (k < length e)%nat /\
+                record_unmarshal (w_hs 0) 0 (firstn k e) <> None.
+Proof.
+  exists (mk_hdr 23 254 253 0 1 [] 3, CAppData [1; 2; 3]). eexists. exists 15%nat.
+  split; [vm_compute; reflexivity|]. split; [vm_compute; reflexivity|].
+  split; [cbn; lia|]. vm_compute. discriminate.
 Qed.
